@@ -55,7 +55,7 @@ BuildJobs ==
   \cup {B(T1, <<Wh(h, Eq)>>) : h \in Hot}
   \cup {B(T1, <<Wh(C1, o)>>) : o \in Ops}
   \cup {B(T1, <<Wh(h, o)>>) : h \in HotSmall, o \in Ops}
-  \cup {B(T1, <<Ob(h, Asc)>>) : h \in Hot \ {<<>>, <<"sp">>, <<"nl">>, <<"sp", "sp">>, <<"sp", "nl">>, <<"nl", "sp">>, <<"nl", "nl">>}}
+  \cup {B(T1, <<Ob(h, Asc)>>) : h \in {x \in Hot : \E i \in 1..Len(x) : x[i] \notin {"sp", "nl"}}}     \* (an all-blank column with a direction word is outside the space)
   \cup {B(T1, <<Ob(h, CHOOSE x \in Dirs : x.text = "")>>) : h \in {<<>>, <<"sp">>, <<"nl">>}}
   \cup {B(T1, <<Ob(h, d)>>) : h \in (HotSmall \ {<<>>, <<"sp">>, <<"nl">>}) \cup {C1, <<"L", "sp">>, <<"sp", "L">>, <<"L", "nl">>, <<"L", "sp", "L">>}, d \in Dirs}
   \cup {B(T1, <<Jn(Inner, h, C1, C2)>>) : h \in Hot}
@@ -96,20 +96,31 @@ def tla_cands(cs):
 def run(ck, tier, seed):
     quick = tier == "quick"
     ck.assumptions += [
-        "identifiers are sequences of character classes (one concrete character per class: letter a, digit 7, _, quotes, ;, blank, -, /, *, parentheses, ., NUL, Cyrillic a, newline, comma) up to length %d, plus a 300-letter run" % (2 if quick else 3),
+        "identifiers are sequences of character classes (one concrete character per class: letter a, digit 7, _, quotes, ;, blank, -, /, *, parentheses, ., NUL, Cyrillic a, newline, comma) up to length 2 (thorough: also length 3 over the 10 classes that matter to quoting and statement structure), plus a 300-letter run",
         "operator / direction / join-type / column-type candidates carry their own classification [text, ok, canon] in the case; the classification is the documented rule (trimmed, case-folded membership; join types exact word)",
         "an OrderBy whose column is blank is 'no ordering' when the direction is blank too; a blank column with a direction word is outside the space (the code then takes the direction word as the column)",
         "OrderBy(column, direction) is specified as the code documents it: both are joined and split on blanks, so blanks around the column are immaterial",
         "Postgres and MySQL statements are captured from a recording database/sql driver and compared as text; only SQLite statements are executed (sentinel table + schema compared before/after)",
         "one adversarial identifier per statement (the other slots hold safe names)",
     ]
-    defs = DEFS_TMPL % {"classes": vf.tla(set(CLASSES)), "n": 2 if quick else 3, "ops": tla_cands(OPS), "dirs": tla_cands(DIRS),
-                        "joins": tla_cands(JOINS), "types": tla_cands(TYPES)}
+    # quick: all 18 classes, identifiers up to 2 characters.  thorough adds identifiers of 3 characters over the 10 classes
+    # that matter to quoting and statement structure (the full 18^3 product does not finish in an hour)
+    plans = [(CLASSES, 2)] if quick else [(CLASSES, 2), (["L", "D", "U", "dq", "sq", "bt", "semi", "sp", "minus", "lp"], 3)]
     cases = []
-    r = vf.tlc("sql", "SqlBuild", {"Jobs": vf.TlaRaw("AllJobs")}, invariants=["OnlyValidatedIdentifiers", "EmitInv"], defs=defs,
-               case_sink=cases.append, timeout=3000, heap="24g")
-    ck.expect_model_ok("jobs", r)
-    ck.add_model("jobs", r)
+    seen_jobs = set()
+    for pi_, (classes, n) in enumerate(plans):
+        defs = DEFS_TMPL % {"classes": vf.tla(set(classes)), "n": n, "ops": tla_cands(OPS), "dirs": tla_cands(DIRS),
+                            "joins": tla_cands(JOINS), "types": tla_cands(TYPES)}
+        part = []
+        r = vf.tlc("sql", "SqlBuild", {"Jobs": vf.TlaRaw("AllJobs")}, invariants=["OnlyValidatedIdentifiers", "EmitInv"], defs=defs,
+                   case_sink=part.append, timeout=5000, heap="24g")
+        ck.expect_model_ok("jobs-%d" % pi_, r)
+        ck.add_model("jobs-%d" % pi_, r)
+        for c in part:
+            key = json.dumps(c, sort_keys=True)
+            if key not in seen_jobs:
+                seen_jobs.add(key)
+                cases.append(c)
     if not cases:
         raise vf.InfraError("no jobs emitted")
     for i, c in enumerate(cases):
@@ -122,7 +133,7 @@ def run(ck, tier, seed):
     path = os.path.join(work, "cases.ndjson")
     vf.write_ndjson(path, cases)
     out = path + ".out"
-    rc, txt = vf.go_test("pkg/database", ["sql_test.go"], run="TestVerifSqlReplay$", env={"VERIF_CASES": path, "VERIF_OUT": out}, timeout=3000)
+    rc, txt = vf.go_test("pkg/database", ["sql_test.go"], run="TestVerifSqlReplay$", env={"VERIF_CASES": path, "VERIF_OUT": out}, timeout=6000)
     res = vf.read_ndjson(out)
     summ = [x for x in res if x.get("summary")]
     if not summ or summ[0]["cases"] != len(cases):
